@@ -369,6 +369,16 @@ func (w *World) nonNil(fn *ssa.Function, at ssa.Instruction, v ssa.Value, depth 
 			if _, ok := x.X.(*ssa.Global); ok {
 				return true // registered sentinel errors are package-level non-nil values
 			}
+			if al, ok := x.X.(*ssa.Alloc); ok {
+				// result spilled around `rundefers`: take the store that precedes the load in its block
+				blk := x.Block()
+				idx := InstrIndex(x)
+				for i := idx - 1; i >= 0; i-- {
+					if st, ok := blk.Instrs[i].(*ssa.Store); ok && st.Addr == ssa.Value(al) {
+						return w.nonNil(fn, st, st.Val, depth+1)
+					}
+				}
+			}
 		}
 	case *ssa.Phi:
 		for _, e := range x.Edges {
@@ -379,6 +389,14 @@ func (w *World) nonNil(fn *ssa.Function, at ssa.Instruction, v ssa.Value, depth 
 		return true
 	case *ssa.Call:
 		cc := x.Common()
+		// sdkerrors.Wrap / Wrapf are package-level function variables (aliases of errorsmod.Wrap)
+		if u, ok := cc.Value.(*ssa.UnOp); ok && u.Op == token.MUL {
+			if g, ok := u.X.(*ssa.Global); ok && g.Pkg != nil && errCtorPkgs[g.Pkg.Pkg.Path()] && (g.Name() == "Wrap" || g.Name() == "Wrapf") {
+				if len(cc.Args) > 0 {
+					return w.nonNil(fn, at, cc.Args[0], depth+1)
+				}
+			}
+		}
 		if sc := cc.StaticCallee(); sc != nil {
 			pk := FnPkg(sc)
 			if pk != nil && errCtorPkgs[pk.Path()] {
@@ -537,4 +555,65 @@ func (w *World) DumpPreds(fn *ssa.Function) {
 			println(b.Index, w.InstrPos(iff), w.Expand(w.ExprOf(iff.Cond), 3).String())
 		}
 	}
+}
+
+// BackEdges returns the (source block, header block) pairs of fn's natural loops: edges whose
+// target dominates their source.
+func BackEdges(fn *ssa.Function) [][2]*ssa.BasicBlock {
+	var out [][2]*ssa.BasicBlock
+	for _, b := range fn.Blocks {
+		for _, s := range b.Succs {
+			if s.Dominates(b) {
+				out = append(out, [2]*ssa.BasicBlock{b, s})
+			}
+		}
+	}
+	return out
+}
+
+// InstrIndex returns the index of in within its block.
+func InstrIndex(in ssa.Instruction) int {
+	for i, x := range in.Block().Instrs {
+		if x == in {
+			return i
+		}
+	}
+	return -1
+}
+
+// AfterReachesBackEdgeWithout reports the loop back edges (of loops containing `from`) that
+// can be reached from just after `from` without executing an instruction accepted by
+// `required`. Blocks ending in panic are abort paths and never reach a back edge.
+func AfterReachesBackEdgeWithout(fn *ssa.Function, from ssa.Instruction, required func(ssa.Instruction) bool) []*ssa.BasicBlock {
+	var bad []*ssa.BasicBlock
+	fb := from.Block()
+	for _, be := range BackEdges(fn) {
+		src, hdr := be[0], be[1]
+		if !hdr.Dominates(fb) {
+			continue
+		}
+		term := src.Instrs[len(src.Instrs)-1]
+		// stop at the header so that only the current iteration is examined
+		cut := Cut{Barrier: func(in ssa.Instruction) bool {
+			return required(in) || (in.Block() == hdr && in == hdr.Instrs[0] && hdr != fb)
+		}}
+		if ReachesFrom(fn, fb, InstrIndex(from)+1, term, cut) {
+			bad = append(bad, src)
+		}
+	}
+	return bad
+}
+
+// EnclosingLoopHeader returns the innermost loop header dominating in's block, or nil.
+func EnclosingLoopHeader(fn *ssa.Function, in ssa.Instruction) *ssa.BasicBlock {
+	var best *ssa.BasicBlock
+	for _, be := range BackEdges(fn) {
+		hdr := be[1]
+		if hdr.Dominates(in.Block()) && ReachesFrom(fn, in.Block(), 0, be[0].Instrs[len(be[0].Instrs)-1], Cut{}) {
+			if best == nil || best.Dominates(hdr) {
+				best = hdr
+			}
+		}
+	}
+	return best
 }
